@@ -4,6 +4,9 @@
 // compiled only under the build tag "verif").
 package cache
 
+// Every function under contract in this package also serves the properties that depend on the whole package.
+//@ package-props C01 C02 C03 C04 C05 C08 C14 C15
+
 // The clock is a package variable holding a function. nowval is "the clock
 // reading during this call" (one arbitrary instant per call).
 //@ ghost nowval int
